@@ -264,6 +264,9 @@ func cmdCheck(args []string) int {
 	run.nativeRaceAlways = *prop == "C11" || *raceFlag
 	if *tier == "thorough" {
 		cfg.TimeoutMs = 120000
+		if cfg.MaxPaths == 0 {
+			cfg.MaxPaths = 1500000 // per harness (quick: 200000); exceeding it is inconclusive, never a pass
+		}
 	}
 	run.cfg = cfg
 	return run.execute()
